@@ -12,7 +12,8 @@ THEOREMS = ["cid_self_certifying", "malformed_dropped", "prefix_roundtrip", "bat
             "presence_within_limit", "blocks_sent_regardless_of_presences",
             "response_delivered_or_dropped_whole", "cached_failure_requeues_whole",
             "fresh_substream_runs_queue_in_order", "queue_untouched_by_other_events",
-            "per_frame_timeout_only", "slow_link_flushes_whole_queue", "frame_over_timeout_fails_call"]
+            "per_frame_timeout_only", "slow_link_flushes_whole_queue", "frame_over_timeout_fails_call",
+            "response_command_never_dropped"]
 CONSTS = ["MAX_MESSAGE_SIZE", "MAX_BATCH_SIZE", "MAX_BATCH_BLOCKS", "BITSWAP_WRITE_TIMEOUT_SECS", "BITSWAP_CMD_CHANNEL_SIZE"]
 _CFG = "src/protocol/libp2p/bitswap/config.rs"
 _MOD = "src/protocol/libp2p/bitswap/mod.rs"
@@ -49,7 +50,11 @@ MANIFEST = {
             "within WRITE_TIMEOUT a call writes all messages of its action however long that takes in total), "
             "slow_link_flushes_whole_queue (the actions queued during the open / dial are all sent, in order, over such a "
             "substream and it is cached), frame_over_timeout_fails_call (a message slower than WRITE_TIMEOUT fails its "
-            "call after exactly the messages before it); plus a seeded correspondence run of the real functions (send_response over an in-memory yamux "
+            "call after exactly the messages before it); the command channel between BitswapHandle and run() (Model/Bitswap/Cmd.lean: "
+            "the bounded channel of Model/Kad/Events.lean with the user as producer): response_command_never_dropped (whatever "
+            "the capacity and however many commands are handed over while the loop is not polled - the user's send().await "
+            "suspends at a full channel - the loop receives exactly the commands handed over, each once, in order, and the state "
+            "is that of handling them all); plus a seeded correspondence run of the real functions (send_response over an in-memory yamux "
             "substream with the codec of the real Config, on_message_received on a real Bitswap instance; the real Bitswap::run() loop with its BitswapHandle and a "
             "real TransportService on a paused tokio clock, the harness playing connections, dials, substream "
             "opens/failures, inbound messages (whole, in pieces with virtual time in between, or held back across other "
@@ -86,9 +91,13 @@ RULE = ("seeded cases of 4-9 operations: prefix_enc/prefix_dec (boundary values,
         "pieces with 0 ms .. 10 min between them or held back across other operations, inbound want-lists of every shape (valid v0/v1 CIDs, truncated at any offset, "
         "trailing bytes, bad versions, want types 0..2^31-1), inbound blocks and presences, undecodable / oversized / "
         "closed / reset inbound substreams; "
+        "three burst cases per run (more in the thorough tier): N one-block responses handed to the real BitswapHandle "
+        "while run() is not polled, N = capacity of the command channel (exactly full), capacity + 1 (the user's future "
+        "suspends holding the last one) and capacity + 2..300, over the cached substream / queued behind the open of a "
+        "fresh one / queued behind a dial - every block must be written exactly once, in the order handed over; "
         "distinct = distinct (ops, observations) transcripts by SHA-256")
 TRUSTED_BASE = ["Lean 4.33 kernel", "axioms: propext, Classical.choice, Quot.sound only",
-                "hand-written models Model/Bitswap/{Prefix,Batch,Proto}.lean tied to bitswap/mod.rs by this correspondence run",
+                "hand-written models Model/Bitswap/{Prefix,Batch,Proto,Cmd}.lean (Cmd: the bounded command channel, on Model/Kad/Events.lean) tied to bitswap/mod.rs by this correspondence run",
                 "adapters /repo/src/verif/c20.rs and c20_proto.rs (one hook line in Bitswap::run publishing the maps), "
                 "harness, verif.py, checks/c20.py",
                 "protocol level: tokio (paused clock), TransportService, the mpsc channels and Substream::send_framed are "
